@@ -29,6 +29,7 @@ def dispatch (stream : String) : Option (String → String → CaseOut) :=
   match stream with
   | "ring" => some ringCase
   | "ringsched" => some ringSchedCase
+  | "ringfine" => some ringFineCase
   | "wire" => some wireCase
   | "hostile" => some hostileCase
   | "sched" => some schedCase
